@@ -552,3 +552,71 @@ for _c in range(5):
         body_global_handler_reach(_c, 1, 2)
     except Exception:
         pass
+
+
+# ------------------------------------------------------------------ one inherited handler at two nesting levels, a competitor in between
+
+class FBase(PaneBase, custom={int: MC(4)}):
+    pass
+
+
+class FLeaf(FBase):
+    n: int = 0
+
+
+class FWrap(PaneBase, custom={int: MC(5)}):
+    """an unrelated class in the middle with a competing handler for int"""
+    leaf: FLeaf
+    leaves: List[FLeaf] = field(default_factory=list)
+    opt: Union[FLeaf, None, str] = None
+    m: int = 0
+
+
+class FRoot(FBase):
+    wrap: FWrap
+    k: int = 0
+
+
+@obligation(pre="0 <= shape <= 2", witnesses=(0,), timeout=240)
+def body_inherited_twice(shape: int, a: int, b: int, c: int, d: int) -> int:
+    """FRoot and FLeaf inherit the SAME handler object; between them sits FWrap with its own: the nearest class decides at every level (4, 5, 4), in both directions"""
+    try:
+        data = {'wrap': {'leaf': {'n': a}, 'm': b}, 'k': c}
+        if shape == 1:
+            data['wrap']['leaves'] = [{'n': d}]
+        elif shape == 2:
+            data['wrap']['opt'] = {'n': d}
+        r = FRoot.from_data(data)
+    except Exception as ex:
+        if crosshair_exc(ex):
+            raise
+        return 10
+    if not eqv(r.k, ('in', 4, c)) or not eqv(r.wrap.m, ('in', 5, b)) or not eqv(r.wrap.leaf.n, ('in', 4, a)):
+        return 1
+    if shape == 1 and not eqv(r.wrap.leaves[0].n, ('in', 4, d)):
+        return 1
+    if shape == 2 and not eqv(r.wrap.opt.n, ('in', 4, d)):
+        return 1
+    try:
+        leaf = FLeaf.make_unchecked(n=a)
+        w = FWrap.make_unchecked(leaf=leaf, m=b, leaves=[FLeaf.make_unchecked(n=d)] if shape == 1 else [],
+                                 opt=FLeaf.make_unchecked(n=d) if shape == 2 else None)
+        out = FRoot.make_unchecked(wrap=w, k=c).into_data()
+    except Exception as ex:
+        if crosshair_exc(ex):
+            raise
+        return 10
+    if not eqv(out['k'], ('out', 4, c)) or not eqv(out['wrap']['m'], ('out', 5, b)) or not eqv(out['wrap']['leaf']['n'], ('out', 4, a)):
+        return 2
+    if shape == 1 and not eqv(out['wrap']['leaves'][0]['n'], ('out', 4, d)):
+        return 2
+    if shape == 2 and not eqv(out['wrap']['opt']['n'], ('out', 4, d)):
+        return 2
+    return 0
+
+
+for _s in range(3):
+    try:
+        body_inherited_twice(_s, 1, 2, 3, 4)
+    except Exception:
+        pass
